@@ -611,7 +611,10 @@ def pending_outputs(wf, prefix, body_log):
                 wake.remove((ev_ident(t.event), t.attempts or 0))
         if isinstance(t, TickStepResult):
             done_steps.add((t.step_name, t.event.get("i", None) if not isinstance(t.event, StepFailedEvent) else None))
-        state, cmds = _orig_reduce(t, state, float(NOW_REPLAY))
+        try:
+            state, cmds = _orig_reduce(t, state, float(NOW_REPLAY))
+        except Exception:  # noqa: BLE001  (the persisted log is not replayable: nothing can be classified as pending)
+            return [], []
         for c in cmds:
             if isinstance(c, CommandQueueEvent):
                 ident = (ev_ident(c.event), c.attempts or 0)
